@@ -587,11 +587,18 @@ pub fn gen_project(rng: &mut Rng) -> Project {
         all_root_names.push(name.clone());
         items.push(Item { file, name, kind: ItemK::Func { inputs, locals, body: vec![] } });
     }
+    let field_names: Vec<String> = items
+        .iter()
+        .flat_map(|it| if let ItemK::Struct { fields } = &it.kind { fields.iter().map(|f| norm(f)).collect() } else { Vec::new() })
+        .collect();
     for _ in 0..nfb {
         let name = g.fresh_root();
         let file = g.rng.below(nfiles as u64) as usize;
         let mut taken = BTreeSet::new();
         taken.insert(norm(&name));
+        // FB member names differ from all struct field names: a field rename matches member accesses of
+        // other files by raw TypeId (recorded finding C16-field-typeid), which the model does not predict
+        taken.extend(field_names.iter().cloned());
         let prefer = all_root_names.clone();
         let st = user_types(&items, false);
         let fbs = user_types(&items, true);
@@ -1237,7 +1244,7 @@ fn apply(texts: &[String], edits: &[(usize, usize, usize, String)]) -> Option<Ve
 
 /// The property's own statement evaluated on the implementation for one accepted rename.
 /// Returns the verdict string written on the `# orc` line.
-fn oracle(cx: &mut Ctx, rd: &Rendered, edits: &[(usize, usize, usize, String)], new_name: &str) -> String {
+fn oracle(cx: &mut Ctx, decl_occ: Option<(usize, usize, String)>, edits: &[(usize, usize, usize, String)], new_name: &str) -> String {
     let nfiles = cx.texts.len();
     // 1. well-formedness
     let mut wf = true;
@@ -1259,9 +1266,9 @@ fn oracle(cx: &mut Ctx, rd: &Rendered, edits: &[(usize, usize, usize, String)], 
         return "wf=0".into();
     };
     // old name = spelling of the declaration among the edited occurrences
-    let decl_edit = edits.iter().find_map(|(f, s, _, _)| {
-        rd.occs.iter().find(|o| o.file == *f && o.start == *s && o.kind == OKind::Decl)
-    });
+    struct DeclOcc { file: usize, start: usize, name: String }
+    let decl_edit = decl_occ.map(|(file, start, name)| DeclOcc { file, start, name });
+    let decl_edit = decl_edit.as_ref();
     let old_name = match decl_edit {
         Some(o) => o.name.clone(),
         None => {
@@ -1500,7 +1507,11 @@ pub fn run_project(n: u64, rng: &mut Rng, p: &Project, ops_per_case: usize, out:
                     if edits.len() >= 2 {
                         nontrivial = true;
                     }
-                    let verdict = oracle(&mut cx, &rd, &edits, &nm);
+                    let decl_occ = edits.iter().find_map(|(f, s, _, _)| {
+                        rd.occs.iter().find(|o| o.file == *f && o.start == *s && o.kind == OKind::Decl)
+                    });
+                    let decl_occ = decl_occ.map(|o| (o.file, o.start, o.name.clone()));
+                    let verdict = oracle(&mut cx, decl_occ, &edits, &nm);
                     out.line(format!("# orc {verdict}"));
                 }
             }
@@ -1519,6 +1530,75 @@ pub fn run_project(n: u64, rng: &mut Rng, p: &Project, ops_per_case: usize, out:
     Ok(())
 }
 
+// ------------------------------------------------------------------------------------------------
+// fixed witnesses of the recorded findings (replayed on the real code in every run)
+// ------------------------------------------------------------------------------------------------
+
+const W_GLOBAL_LOCAL: &str = "CONFIGURATION Conf\nVAR_GLOBAL\n    g : DINT;\nEND_VAR\nTASK Fast (INTERVAL := T#10ms, PRIORITY := 1);\nPROGRAM Inst WITH Fast : Main;\nEND_CONFIGURATION\n\nPROGRAM Main\nVAR\n    x : DINT;\n    y : DINT;\nEND_VAR\n    x := g + 1;\n    y := x;\nEND_PROGRAM\n";
+const W_XFILE: &str = "FUNCTION Foo : DINT\nVAR_INPUT\n    a : DINT;\nEND_VAR\n    Foo := a + 1;\nEND_FUNCTION\n=====\nFUNCTION Bar : DINT\nVAR_INPUT\n    a : DINT;\nEND_VAR\n    Bar := a + Foo(a);\nEND_FUNCTION\nPROGRAM Main\nVAR\n    x : DINT;\nEND_VAR\n    x := Bar(2) + Foo(1);\nEND_PROGRAM\n";
+const W_ARG: &str = "FUNCTION AddK : DINT\nVAR_INPUT\n    k : DINT;\nEND_VAR\n    AddK := k + 1;\nEND_FUNCTION\n\nPROGRAM Main\nVAR\n    r : DINT;\nEND_VAR\n    r := AddK(k := 1);\nEND_PROGRAM\n";
+const W_TWO_METHODS: &str = "FUNCTION_BLOCK FbA\nVAR\n    acc : DINT;\nEND_VAR\nMETHOD PUBLIC Run : DINT\nVAR_INPUT\n    t : DINT;\nEND_VAR\n    acc := acc + t;\n    Run := acc;\nEND_METHOD\nEND_FUNCTION_BLOCK\n\nFUNCTION_BLOCK FbB\nVAR\n    acc : DINT;\nEND_VAR\nMETHOD PUBLIC Run : DINT\nVAR_INPUT\n    t : DINT;\nEND_VAR\n    acc := acc + t;\n    Run := acc;\nEND_METHOD\nEND_FUNCTION_BLOCK\n\nPROGRAM Main\nVAR\n    a : FbA;\n    b : FbB;\n    r : DINT;\nEND_VAR\n    r := a.Run(1);\n    r := b.Run(2);\nEND_PROGRAM\n";
+const W_INST: &str = "CONFIGURATION Conf\nVAR_GLOBAL\n    dd : DINT := 9;\nEND_VAR\nTASK Fast (INTERVAL := T#10ms, PRIORITY := 1);\nPROGRAM k WITH Fast : Main;\nEND_CONFIGURATION\n\nPROGRAM Main\nVAR\n    x : DINT;\nEND_VAR\n    x := dd + 1;\n    dd := x;\nEND_PROGRAM\n";
+const W_FIELD: &str = "PROGRAM Run\nVAR\n    hh : Pump;\n    r : DINT;\nEND_VAR\n    r := hh.gg(v := 1);\nEND_PROGRAM\n=====\nTYPE Rec : STRUCT\n    gg : DINT;\nEND_STRUCT\nEND_TYPE\n\nFUNCTION_BLOCK Pump\nMETHOD PUBLIC gg : DINT\nVAR_INPUT\n    v : DINT;\nEND_VAR\n    gg := v + 1;\nEND_METHOD\nEND_FUNCTION_BLOCK\n";
+
+/// (finding class, project text, text that locates the cursor, occurrence index of that text, new name)
+const WITNESSES: &[(&str, &str, &str, usize, &str)] = &[
+    ("capture", W_GLOBAL_LOCAL, "g : DINT", 0, "x"),
+    ("shadow", W_GLOBAL_LOCAL, "x : DINT", 0, "g"),
+    ("capture-cross-file", W_XFILE, "Foo : DINT", 0, "Bar"),
+    ("missed-arg", W_ARG, "k : DINT", 0, "u"),
+    ("missed-ctask", W_GLOBAL_LOCAL, "Fast (INTERVAL", 0, "Quick"),
+    ("missed-cprog", W_GLOBAL_LOCAL, "Main\nVAR", 0, "Other"),
+    ("pou-dup", W_TWO_METHODS, "t : DINT", 1, "u"),
+    ("inst-clash", W_INST, "dd : DINT", 0, "k"),
+    ("field-typeid", W_FIELD, "gg : DINT;", 0, "zz"),
+];
+
+fn run_witnesses(out: &mut Out) {
+    out.line("case witnesses");
+    for (class, text, needle, nth, new_name) in WITNESSES {
+        let texts: Vec<String> = text.split("=====\n").map(|s| s.to_string()).collect();
+        let mut found = None;
+        let mut seen = 0usize;
+        'f: for (fi, t) in texts.iter().enumerate() {
+            let mut from = 0;
+            while let Some(p) = t[from..].find(needle) {
+                if seen == *nth {
+                    found = Some((fi, from + p));
+                    break 'f;
+                }
+                seen += 1;
+                from += p + 1;
+            }
+        }
+        let Some((file, pos)) = found else {
+            out.line(format!("# witness {class} reproduced=0 detail=cursor-not-found"));
+            continue;
+        };
+        let db = make_db(&texts);
+        if let Some(e) = has_error(&db, texts.len()) {
+            out.line(format!("# witness {class} reproduced=0 detail=witness-project-has-errors:{}", e.replace(' ', "_")));
+            continue;
+        }
+        let idents: Vec<BTreeSet<(usize, usize)>> = texts.iter().map(|t| ident_tokens(t)).collect();
+        let tok = idents[file].iter().find(|(s, e)| *s <= pos && pos < *e).copied();
+        let mut cx = Ctx { compare_behaviour: true, texts: texts.clone(), db, idents, trace: vec![vec![0], vec![3], vec![-7], vec![0]], base_run: None };
+        let verdict = match call_rename(&cx.db, file, pos, new_name) {
+            Ok(Some(edits)) => {
+                let decl_occ = tok.map(|(s, e)| (file, s, texts[file][s..e].to_string()));
+                oracle(&mut cx, decl_occ, &edits, new_name)
+            }
+            Ok(None) => "refused".to_string(),
+            Err(()) => "panic".to_string(),
+        };
+        let v: Vec<&str> = verdict.split(' ').collect();
+        let failed = v.iter().any(|w| matches!(*w, "wf=0" | "diag=0" | "comp=0" | "beh=0" | "back=0"));
+        out.line(format!("# witness {class} reproduced={} detail={}", failed as u8, verdict.chars().take(160).collect::<String>()));
+        out.count(if failed { "witness_reproduced" } else { "witness_not_reproduced" });
+    }
+    out.line("end");
+}
+
 pub fn run(args: &Args) -> i32 {
     if let Some(p) = args.extra.get("tree") {
         let text = std::fs::read_to_string(p).expect("read");
@@ -1533,6 +1613,9 @@ pub fn run(args: &Args) -> i32 {
     std::panic::set_hook(Box::new(|_| {}));
     let ops = args.extra_usize("ops", 16);
     let mut out = Out::new();
+    if args.only.is_none() {
+        run_witnesses(&mut out);
+    }
     for n in args.case_numbers() {
         let mut rng = Rng::for_case(args.seed, n);
         let p = gen_project(&mut rng);
